@@ -360,3 +360,17 @@ void h_wait_register_spawn(void)
 	__CPROVER_assert(!g_lock_held, "[C11] lock released on every path");
 	CANARY();
 }
+
+/* ---- per-thread set-up ----------------------------------------------------------------- */
+void h_wait_tls_init(void)
+{
+	struct iv_wait_thr_info ti, nd;
+
+	ti = nd;
+	iv_wait_tls_init_thread(&ti);
+	__CPROVER_assert(ti.wait_count == 0 && ti.handled_wait_interest == NULL, "[C11] a thread starts without wait interests and without a delivery in progress");
+	__CPROVER_assert(ti.sigchld_interest.signum == SIGCHLD && ti.sigchld_interest.handler == iv_wait_got_sigchld, "[C11] the thread's signal interest is for SIGCHLD and runs the reaper");
+	__CPROVER_assert(ti.sigchld_interest.flags == IV_SIGNAL_FLAG_EXCLUSIVE, "[C11] the SIGCHLD interest is process-wide (any thread the kernel picks may take the signal; the reaper serves every thread's children) and exclusive (one reaper run per delivery); it is NOT tied to the receiving thread");
+	CANARY();
+}
+
